@@ -232,6 +232,48 @@ class VManager(bm.SyncManager):
     pass
 
 
+class WouldBlockForever(Exception):
+    """The referent was asked to wait without a time limit for something
+    that is not available: in a sequential history that call would never
+    return (the harness only issues such calls when they cannot block, so
+    this means a proxy turned a bounded call into an unbounded one)."""
+
+
+def _nohang(factory):
+    class NoHang:
+        def __init__(self, *a, **k):
+            self._o = factory(*a, **k)
+
+        def acquire(self, *a, **k):
+            blocking = a[0] if a else k.get('blocking', True)
+            timed = len(a) > 1 or 'timeout' in k
+            if blocking is True and not timed:
+                if self._o.acquire(False):
+                    return True
+                raise WouldBlockForever('acquire() without time limit on an '
+                                        'unavailable %s' % factory.__name__)
+            return self._o.acquire(*a, **k)
+
+        def __enter__(self):
+            return self.acquire()
+
+        def __exit__(self, *a):
+            self._o.release()
+
+        def __getattr__(self, name):
+            return getattr(self._o, name)
+    NoHang.__name__ = NoHang.__qualname__ = 'NoHang_' + factory.__name__
+    return NoHang
+
+
+for _n, _f, _p in (('Lock', threading.Lock, bm.AcquirerProxy),
+                   ('RLock', threading.RLock, bm.AcquirerProxy),
+                   ('Semaphore', threading.Semaphore, bm.AcquirerProxy),
+                   ('BoundedSemaphore', threading.BoundedSemaphore,
+                    bm.AcquirerProxy),
+                   ('Condition', threading.Condition, bm.ConditionProxy)):
+    VManager.register(_n, _nohang(_f), _p)
+
 VManager.register('Src', Src, method_to_typeid={
     'it': 'Iterator', 'gen': 'Iterator', 'same': 'Cell'})
 VManager.register('Cell', create_method=False)
@@ -1440,7 +1482,24 @@ def key_variants(tier):
     out.append(('ext1', KEY + KEY[:1]))
     out.append(('ext2', KEY + KEY))
     out.append(('nokey', None))
+    # a client without the key that speaks the wire protocol by hand and
+    # answers the server's challenge with something degenerate
+    for nm, resp in (('digest-empty', b''), ('digest-1byte', b'\x00'),
+                     ('digest-16-zero', b'\x00' * 16),
+                     ('digest-welcome', b'#WELCOME#'),
+                     ('digest-echo', 'echo')):
+        out.append((nm, Degenerate(resp)))
     return out
+
+
+class Degenerate:
+    """Not a key: what a key-less hostile client sends as its 'digest'."""
+
+    def __init__(self, resp):
+        self.resp = resp
+
+    def __repr__(self):
+        return 'Degenerate(%r)' % (self.resp,)
 
 
 D_PATHS = ('connect', 'create', 'number_of_objects', 'proxy-incref',
@@ -1491,7 +1550,24 @@ def _run_key(name, key, path):
                 _Net.conns.extend((c, s))
                 _Net.listeners[addr].backlog.put(s)
                 err = None
-                if key is not None:
+                if isinstance(key, Degenerate):
+                    try:
+                        ch = c.recv_bytes(256)
+                        c.send_bytes(ch[len(bconn.CHALLENGE):]
+                                     if key.resp == 'echo' else key.resp)
+                        verdict = c.recv_bytes(256)
+                        if verdict != bconn.WELCOME:
+                            raise AuthenticationError('refused')
+                        # the server now authenticates itself to us: let it
+                        c.send_bytes(bconn.CHALLENGE + b'x' * 20)
+                        c.recv_bytes(256)
+                        c.send_bytes(bconn.WELCOME)
+                    except AuthenticationError as e:
+                        err = e
+                    except (EOFError, OSError) as e:
+                        err = AuthenticationError('connection dropped: %r'
+                                                  % (e,))
+                elif key is not None:
                     try:
                         bconn.answer_challenge(c, key)
                         bconn.deliver_challenge(c, key)
@@ -1545,8 +1621,9 @@ def _run_key(name, key, path):
                     bm.ListProxy, token, 'inproc', {'authkey': key})
                 return None
             raise ValueError(path)
-        skip = key is None and path in ('proxy-incref', 'autoproxy',
-                                        'rebuild')
+        skip = (key is None and path in ('proxy-incref', 'autoproxy',
+                                         'rebuild')) or (
+            isinstance(key, Degenerate) and not path.startswith('raw-'))
         if skip:
             # authkey=None means "use the process key" on these paths
             return ('skip',), None, env.log
@@ -1590,6 +1667,24 @@ def _run_key(name, key, path):
     return outcome, viol, log
 
 
+def _key_json(key):
+    if key is None:
+        return None
+    if isinstance(key, Degenerate):
+        return {'degenerate': key.resp if isinstance(key.resp, str)
+                else list(key.resp)}
+    return list(key)
+
+
+def _key_unjson(k):
+    if k is None:
+        return None
+    if isinstance(k, dict):
+        r = k['degenerate']
+        return Degenerate(r if isinstance(r, str) else bytes(r))
+    return bytes(k)
+
+
 def _task_d(arg):
     name, key = arg
     res = dict(part='d', evals=0, outcomes=set(), viols=[], samples=[])
@@ -1599,8 +1694,7 @@ def _task_d(arg):
         res['outcomes'].add(repr(outcome))
         if viol:
             res['viols'].append((viol, dict(part='d', name=name,
-                                            key=list(key) if key is not None
-                                            else None, path=path)))
+                                            key=_key_json(key), path=path)))
     res['samples'].append({'key': name, 'paths': list(D_PATHS)})
     gc.collect()
     return res
@@ -1851,7 +1945,7 @@ def replay(rp):
         for d in x.decisions:
             print('  %s -> %d' % (d.label, d.chosen))
     elif part == 'd':
-        key = bytes(rp['key']) if rp['key'] is not None else None
+        key = _key_unjson(rp['key'])
         outcome, viol, log = run_key(rp['name'], key, rp['path'])
     else:
         print('unknown replay part %r' % part)
